@@ -10,6 +10,12 @@
 #include "VM/include/instr.hpp"
 #include "program.hpp"
 
+#ifdef THEO_IDE_LIBTHEO_VERIF
+// verification hook: read/write access to the hidden machine state for the
+// native replay drivers of /verif (no effect unless the guard is defined)
+struct TheoVerifAccess;
+#endif
+
 namespace Theo {
 
 class VM {
@@ -38,6 +44,9 @@ class VM {
     VM::Activation::Data getActivationVariables();
 
     friend class VM;
+#ifdef THEO_IDE_LIBTHEO_VERIF
+    friend struct ::TheoVerifAccess;
+#endif
   };
 
  private:
@@ -47,6 +56,10 @@ class VM {
   std::vector<Word> data;
   std::vector<Activation> stack;
   std::set<BreakPoint> enabled_breakpoints;
+
+#ifdef THEO_IDE_LIBTHEO_VERIF
+  friend struct ::TheoVerifAccess;
+#endif
 
  public:
   VM(Program code);
